@@ -1,0 +1,16 @@
+//go:build verif
+
+package io
+
+// This file is compiled only with the build tag "verif". It is a read-only test
+// bridge for the external property checks in /verif (check C17) and changes no
+// behaviour of the package.
+
+// VerifEstimatedSize returns the size estimate a BasicDirectory currently tracks
+// for its sharding decision. Its meaning depends on the size-estimation mode:
+// in SizeEstimationBlock mode it is the arithmetically computed length of the
+// serialized dag-pb block.
+func (d *BasicDirectory) VerifEstimatedSize() int { return d.estimatedSize }
+
+// VerifTotalLinks returns the link count a BasicDirectory currently tracks.
+func (d *BasicDirectory) VerifTotalLinks() int { return d.totalLinks }
